@@ -3,7 +3,10 @@
  * search.c is compiled from a scratch copy in which the definition `int vbi_search_next(...)' carries the return type
  * of its prototype (`vbi_search_status'); goto-cc rejects the mismatch, gcc does not (Ob(patch=...), one textual edit).
  *
- *   h_c17_walk     walk + stop logic with an ABSTRACT matcher.  Real: vbi_search_new (start/stop set-up),
+ *   h_c17_walk     (search.c compiled with LAST_ROW = 3, i.e. a page slice of text rows 1..2 instead of 1..23: the page
+ *                  geometry is irrelevant to the walk under the abstract matcher, and the row-23 version costs ~100 s of
+ *                  symex PER VISITED PAGE because `first' becomes a 920-deep conditional)
+ *                  walk + stop logic with an ABSTRACT matcher.  Real: vbi_search_new (start/stop set-up),
  *                  vbi_search_next, search_page_fwd / search_page_rev (stop tests, haystack construction, the calls
  *                  of the matcher, highlight -> continuation row/column).  Replaced:
  *                    _vbi_cache_foreach_page  by a model that walks a symbolic population of <= NP cached pages in
@@ -46,6 +49,21 @@
 
 /* ------------------------------------------------------------------ environment */
 
+#ifdef VERIF_CBMC
+/* vbi_search_new allocates the 12 KB search object with calloc(1, sizeof(*s)); CBMC's calloc model creates an UNTYPED byte
+   array, and every field access of search.c then becomes a byte_extract/byte_update on 12 KB (measured: ~1 s of symex per
+   iteration of the haystack loop).  Same contract, typed object: fresh zeroed heap object of exactly that size. */
+void *calloc(size_t n, size_t size)
+{
+  static struct vbi_search c17_zero;
+  struct vbi_search *p;
+  __CPROVER_assert(n == 1 && size == sizeof(struct vbi_search), "VP:calloc_model_is_for_the_search_object");
+  p = (struct vbi_search *) malloc(sizeof(struct vbi_search));
+  *p = c17_zero;
+  return p;
+}
+#endif
+
 static vbi_decoder VBI;
 static struct _ure_buffer_t { int dummy; } c17_ub;
 static struct _ure_dfa_t { int dummy; } c17_ud;
@@ -85,7 +103,7 @@ static int c17_hay_mode;
 static unsigned long c17_hay_len; static long c17_hay_off; static int c17_hay_flags;
 
 #define ROWLEN 41                                  /* 40 characters + separator */
-#define HAYLEN (23 * ROWLEN)
+#define HAYLEN ((LAST_ROW - FIRST_ROW) * ROWLEN)  /* 23 rows; the walk obligation compiles search.c with LAST_ROW = 3 */
 
 vbi_bool vbi_format_vt_page(vbi_decoder *vbi, vbi_page *pg, cache_page *vtp, vbi_wst_level max_level, int display_rows, vbi_bool navigation)
 {
@@ -98,7 +116,9 @@ vbi_bool vbi_format_vt_page(vbi_decoder *vbi, vbi_page *pg, cache_page *vtp, vbi
   c17_n_format++;
   /* blank page, all cells VBI_NORMAL_SIZE: the search object comes from calloc and search.c only ever changes the
      colours of cells (highlight), which nothing below depends on - no need to clear 8 KB again per page */
-  pg->rows = 25; pg->columns = 41;
+  /* rows/columns are set ONCE by the harness right after vbi_search_new (c17_page_geometry): a store here would sit under
+     the symbolic guards of the walk and turn every `i * pg->columns' of search.c into a symbolic index into the 8 KB page */
+  V_ASSERT(pg->rows == 25 && pg->columns == 41, "page_geometry_preset");
   pg->pgno = vtp->pgno; pg->subno = vtp->subno;
   if (c17_hay_mode) {
     int r, k;
@@ -151,14 +171,16 @@ int _vbi_cache_foreach_page(vbi_cache *ca, cache_network *cn, vbi_pgno pgno, vbi
     for (i = 0; i < NP; i++) if (PRESENT[i] && U[i].pgno == pgno && U[i].subno == subno) first = i;
   }
   cur = c17_key(pgno, subno);
+  for (i = 0; i < NP; i++) {        /* concrete indices: a store through a symbolic index into 4.5 KB structs stalls symex */
+    CP[i].pgno = U[i].pgno; CP[i].subno = U[i].subno;
+    CP[i].function = U[i].lop ? PAGE_FUNCTION_LOP : PAGE_FUNCTION_GPOP;
+  }
   for (it = 0; it < 2 * NP + 2; it++) {
     int next = -1, lo = -1, hi = -1;
     if (first >= 0) {
-      int r;
-      CP[first].pgno = U[first].pgno; CP[first].subno = U[first].subno;
-      CP[first].function = U[first].lop ? PAGE_FUNCTION_LOP : PAGE_FUNCTION_GPOP;
+      int r = 0;
       c17_n_cb++;
-      r = callback(&CP[first], wrapped, user_data);
+      for (i = 0; i < NP; i++) if (i == first) r = callback(&CP[i], wrapped, user_data);
       if (r != 0) return r;
     }
     /* next cached page strictly beyond `cur' in direction dir; the universe is sorted ascending */
@@ -178,6 +200,8 @@ int _vbi_cache_foreach_page(vbi_cache *ca, cache_network *cn, vbi_pgno pgno, vbi
   V_ASSERT(0, "search_walk_terminates");
   return -1;
 }
+
+static void c17_page_geometry(void) { S->pg.rows = 25; S->pg.columns = 41; }   /* what vbi_format_vt_page always produces */
 
 static int c17_valid_subno(int s) { return s >= 0 && s <= 0x3F7E && (s & 0x80) == 0 && (s & 0x7F) != 0x7F; }
 
@@ -205,6 +229,7 @@ V_HARNESS(h_c17_walk)
 
   S = vbi_search_new(&VBI, pgno0, subno0, pattern, FALSE, TRUE, NULL);
   V_ASSERT(S != NULL, "search_new_succeeds");
+  c17_page_geometry();
 
   /* oracle state: origins of a forward / backward pass on the cyclic key space.  Forward: the pass begins AT the start
      page.  Backward: it begins just below it and ends with it (VBI_ANY_SUBNO: all subpages of the start page first). */
@@ -361,6 +386,7 @@ V_HARNESS(h_c17_haystack)
   c17_hay_mode = 1;
   S = vbi_search_new(&VBI, 0x100, 0, pattern, FALSE, TRUE, NULL);
   V_ASSERT(S != NULL, "search_new_succeeds");
+  c17_page_geometry();
   st = vbi_search_next(S, &pg, +1);
   V_ASSERT(st == VBI_SEARCH_NOT_FOUND, "single_page_without_match");
   V_ASSERT(c17_n_exec == 1 && c17_hay_off == 0, "matcher_run_once_on_the_whole_haystack");
@@ -377,6 +403,7 @@ V_HARNESS(h_c17_haystack)
     rowlen[r] = n - start;
     EXPH[n++] = SEPARATOR;
   }
+  V_ASSERT(LAST_ROW == 24, "real_page_geometry");
   V_ASSERT(c17_hay_len == n + 21 * ROWLEN, "haystack_length");
   V_ASSERT(c17_hay_len <= sizeof S->haystack / sizeof S->haystack[0], "haystack_fits_buffer");
   for (i = 0; i < 2 * ROWLEN; i++)
